@@ -66,3 +66,46 @@ pub fn parse_direct(input: &str) -> ParseResult<Vec<AST>> {
         _ => Ok(vec![]),
     }
 }
+
+/// Verification hook: expose the (private) lexer as plain data.
+///
+/// Each token is `(kind, lexeme, (start line, start pos), (end line, end pos))`; a lexical error is
+/// `(line, pos, message)`. Tokens of interpolated expressions of a string follow that string with
+/// kind prefixed by `Str.`.
+#[cfg(mamba_verif)]
+#[allow(clippy::type_complexity)]
+pub fn verif_lex(
+    input: &str,
+) -> Result<Vec<(String, String, (usize, usize), (usize, usize))>, (usize, usize, String)> {
+    fn kind(token: &Token) -> String {
+        let dbg = format!("{token:?}");
+        dbg.split(|c| c == '(' || c == ' ')
+            .next()
+            .unwrap_or("")
+            .to_string()
+    }
+    fn push(out: &mut Vec<(String, String, (usize, usize), (usize, usize))>, prefix: &str, lex: &Lex) {
+        out.push((
+            format!("{prefix}{}", kind(&lex.token)),
+            format!("{}", lex.token),
+            (lex.pos.start.line, lex.pos.start.pos),
+            (lex.pos.end.line, lex.pos.end.pos),
+        ));
+        if let Token::Str(_, exprs) = &lex.token {
+            for expr in exprs {
+                for inner in expr {
+                    push(out, "Str.", inner);
+                }
+            }
+        }
+    }
+
+    match tokenize(input) {
+        Ok(tokens) => {
+            let mut out = vec![];
+            tokens.iter().for_each(|lex| push(&mut out, "", lex));
+            Ok(out)
+        }
+        Err(err) => Err((err.pos.line, err.pos.pos, err.msg)),
+    }
+}
